@@ -78,6 +78,10 @@ def python_seeds(rng):
     seeds.append(("py-dict-gzip", pq.build_file([
         {"name": "i", "type": pq.INT64, "rows": [i64(x % 4) for x in range(30)], "dict": True},
         {"name": "k", "type": pq.FLBA, "tlen": 3, "rows": [b"abc", b"def"] * 15, "dict": True}], codec=2)))
+    seeds.append(("py-kv", pq.build_file([
+        {"name": "i", "type": pq.INT32, "rows": [i32(x) for x in range(7)]},
+        {"name": "s", "type": pq.BYTE_ARRAY, "rep": pq.OPTIONAL, "rows": [b"a", None, b"bc", b"", None, b"d", b"e"]}],
+        kv=[(b"writer.note", b"robust"), (b"empty", b"")], extras=True)))
     seeds.append(("py-plain", pq.build_file([
         {"name": "b", "type": pq.BOOLEAN, "rows": [bool(x & 1) for x in range(13)]},
         {"name": "f", "type": pq.FLBA, "tlen": 4, "rep": pq.OPTIONAL, "rows": [b"wxyz", None] * 6 + [b"1234"]},
@@ -868,6 +872,19 @@ def special_cases(byname):
                         g[2] = 0
                 f[2] = ("list", T_STRUCT, [root], None)
         out.append((nm, reassemble(data, L, tree), "special:schema-single-leaf-root"))
+    # (2b) row groups with fewer column chunks than the schema has leaves (the indices in between must be refused),
+    #      on a zero-copy capable file: chunks that follow the array in the arena must not be mistaken for members
+    for nm in ("py-plain", "py-kv"):
+        data = byname[nm]
+        L = pq.layout(data)
+        for drop in (1, 2):
+            tree = copy.deepcopy(L.footer)
+            for rg in pq.items(pq.get(tree, 4)):
+                for f in rg:
+                    if f[0] == 1:
+                        tag, et, its, decl = f[2]
+                        f[2] = (tag, et, its[:max(0, len(its) - drop)], decl)
+            out.append((nm, reassemble(data, L, tree), f"special:row-group-short-by-{drop}"))
     # (3) a BOOLEAN column with a dictionary page (no dictionary support for that type: NOT_IMPLEMENTED)
     out.append(("py-bool-dict", pq.build_file([{"name": "b", "type": pq.BOOLEAN, "rows": [True, False, True, True], "dict": True}]),
                 "special:boolean-dictionary"))
